@@ -12,6 +12,8 @@ for d in sorted(glob.glob("/tmp/seed/out/C*")) + []:
         continue
     name = os.path.basename(d)
     dst = os.path.join(V, "seeded", name)
+    if os.path.exists(os.path.join(dst, "eval.json")) and name[-1] in "abcdrstu":
+        continue        # rounds 1-3 are re-evaluated in place (/verif/seeded/<id>), not from the scratch copies
     os.makedirs(dst, exist_ok=True)
     for f in ("patch.diff", "demo.py", "meta.json", "eval.json"):
         shutil.copy(os.path.join(d, f), os.path.join(dst, f))
